@@ -56,16 +56,16 @@ impl EnfGroup {
             "C01" => vec![
                 ("validate", 26), ("revoke", 16), ("activate", 5), ("getpoint", 4), ("getsecret", 8), ("getsecretnone", 5),
                 ("signholder", 2), ("signrecovery", 1), ("signredundant", 2), ("mutualclose", 1), ("signcp", 6), ("revokecp", 4),
-                ("restart", 6), ("hvalidate", 8), ("hrevoke", 5), ("hgetpoint", 5), ("hgetpoint2", 1),
+                ("restart", 6), ("hvalidate", 8), ("hrevoke", 5), ("hgetpoint", 5), ("hgetpoint2", 1), ("tick", 4), ("keysend", 2),
             ],
             "C02" => vec![
                 ("validate", 24), ("revoke", 16), ("activate", 5), ("getpoint", 1), ("getsecret", 8), ("getsecretnone", 4),
                 ("signholder", 8), ("signrecovery", 5), ("signredundant", 8), ("mutualclose", 4), ("signcp", 5), ("revokecp", 2),
-                ("restart", 6), ("hvalidate", 5), ("hrevoke", 4), ("hgetpoint", 3),
+                ("restart", 6), ("hvalidate", 5), ("hrevoke", 4), ("hgetpoint", 3), ("tick", 5), ("keysend", 2),
             ],
             _ => vec![
                 ("validate", 6), ("revoke", 4), ("activate", 2), ("getsecret", 1), ("signholder", 1), ("mutualclose", 1),
-                ("signcp", 38), ("revokecp", 36), ("restart", 6), ("hvalidate", 1),
+                ("signcp", 38), ("revokecp", 36), ("restart", 6), ("hvalidate", 1), ("tick", 3), ("keysend", 2),
             ],
         }
     }
@@ -127,11 +127,15 @@ impl EnfGroup {
         // holder contents: also the HTLC-carrying ones (4..=8 = 1..=5 HTLCs)
         let hcontent_pick = |rng: &mut Rng| -> u64 {
             let r = rng.below(100);
-            let base = if r < 8 { 9 } else if r < 50 { rng.below(4) } else { 4 + rng.below(5) };
+            let base = if r < 8 { 9 } else if r < 45 { rng.below(4) } else if r < 80 { 4 + rng.below(5) } else { 10 };
             base + 16 * (if rng.chance(1, 2) { 0 } else { rng.below(3) })
         };
-        let cur_htlcs = e.as_ref().and_then(|e| e.current_holder_commit_info.as_ref().map(|i| !i.received_htlcs.is_empty())).unwrap_or(false)
+        let cur_htlcs = e.as_ref().and_then(|e| e.current_holder_commit_info.as_ref().map(|i| !i.htlcs_is_empty())).unwrap_or(false)
             || e.as_ref().and_then(|e| e.current_counterparty_commit_info.as_ref().map(|i| !i.htlcs_is_empty() || i.to_broadcaster_value_sat != 0)).unwrap_or(false);
+        let pay_ok = match e.as_ref().and_then(|e| e.next_holder_commit_info.as_ref()) {
+            Some((i, _)) => if w.outgoing_ok(&i.offered_htlcs) { 1 } else { 0 },
+            None => 1,
+        };
         let kind = self.pick_kind(rng);
         match kind {
             "validate" | "hvalidate" => {
@@ -153,7 +157,11 @@ impl EnfGroup {
                 }
                 // signature variant: mostly all genuine; else one of the defective lists
                 let v = if rng.chance(2, 3) { 1 } else { *rng.pick(&[0u64, 2, 3, 4, 5, 6, 7, 8]) };
-                let fact = sig_fact(v, content_htlcs(c));
+                // fact 3 = signatures fine, but the payment check that follows them refuses (approval gone)
+                let mut fact = sig_fact(v, content_htlc_total(c));
+                if fact == 1 && !w.outgoing_ok(&offered_of(c)) {
+                    fact = 3;
+                }
                 let p = if content_policy_ok(c, n) { 1 } else { 0 };
                 if kind == "validate" {
                     format!("validate {} {} {} {} {} {}", n, c, fact, p, rng.range(1, 2), v)
@@ -161,8 +169,11 @@ impl EnfGroup {
                     format!("hvalidate {} {} {} {} {} {}", rng.range(4, 6), n, c, fact, p, v)
                 }
             }
-            "revoke" => format!("revoke {}", near(rng, next)),
-            "hrevoke" => format!("hrevoke {} {}", rng.range(4, 6), near(rng, next.saturating_sub(1))),
+            // third/fourth token: would the node-wide payment re-check accept the staged commitment now?
+            "revoke" => format!("revoke {} {}", near(rng, next), pay_ok),
+            "hrevoke" => format!("hrevoke {} {} {}", rng.range(4, 6), near(rng, next.saturating_sub(1)), pay_ok),
+            "tick" => format!("tick {}", *rng.pick(&[30u64, 61, 600])),
+            "keysend" => "keysend".into(),
             "activate" => "activate".into(),
             "getpoint" => format!("getpoint {}", near(rng, next + 1)),
             "hgetpoint" => format!("hgetpoint {} {}", rng.range(4, 6), near(rng, next + 1)),
@@ -216,7 +227,7 @@ impl EnfGroup {
                 };
                 // retries mostly through phase 2 (the entry point that returns HTLC signatures)
                 let ph = if retry && rng.chance(2, 3) { 2 } else { rng.range(1, 2) };
-                format!("signcp {} {} {} {} {}", n, ptid, c, if cp_content_policy_ok(c, n) { 1 } else { 0 }, ph)
+                format!("signcp {} {} {} {} {}", n, ptid, c, if cp_content_policy_ok(c, n) && w.outgoing_ok(&cp_content(c).received) { 1 } else { 0 }, ph)
             }
             "revokecp" => {
                 let base = if rng.chance(1, 6) { cr.saturating_sub(1) } else { cr };
@@ -276,7 +287,7 @@ impl Group for EnfGroup {
             Some("hsigncp") => Some(format!("signcp {}", t[1..].join(" "))),
             Some("hmutualclose") => Some(format!("mutualclose {}", t[1..].join(" "))),
             Some("hvalidate1") => Some(format!("hvalidate {}", t[1..].join(" "))),
-            Some("hcheckfuture") => None,
+            Some("hcheckfuture") | Some("tick") | Some("keysend") => None,
             _ => Some(op.to_string()),
         }
     }
@@ -301,6 +312,20 @@ impl Group for EnfGroup {
             f(&format!("setup|restart|validate 0 0 1 1 1|restart|activate|restart|signcp 0 1000 0 1 1|restart|validate 1 17 1 1 2|restart|revoke 1|restart|signcp 1 1004 1 1 2|restart|revokecp 0 {} 1000|restart|signcp 2 1008 0 1 2|mutualclose 1 1 1|restart|validate 2 0 1 1 2|revoke 2|signholder 1|restart|revoke 2",
                 hex::encode(lightning_signer::lightning::ln::chan_utils::build_commitment_secret(&[3u8; 32], INITIAL)))),
             f("setup|validate 0 0 1 1 2|activate|signcp 0 1000 0 1 2|mutualclose 1 2 1|restart|validate 1 1 1 1 2|signredundant 0 0 1|restart|revoke 1|signrecovery|restart|getsecret 0"),
+            // a staged commitment with an outgoing HTLC whose keysend approval expires (heartbeat prune) before the
+            // revocation: the revocation is refused, retried, the signer restarts, the node force-closes
+            f("setup|validate 0 0 1 1 2|activate|validate 1 1 1 1 2|revoke 1 1|validate 2 10 1 1 2|tick 600|revoke 2 0|revoke 2 0|restart|revoke 2 0|signholder 1|getsecret 1"),
+            f("setup|validate 0 0 1 1 2|activate|validate 1 26 1 1 1|tick 61|hrevoke 6 0 0|hrevoke 6 0 0|restart|hsignholder 6 0|keysend|revoke 1 1"),
+            f("setup|validate 0 0 1 1 2|activate|validate 1 10 1 1 2|revoke 1 1|tick 600|validate 2 0 1 1 2|revoke 2 1|restart|validate 3 10 1 1 1|tick 600|hrevoke 6 2 0|hrevoke 6 2 0|restart|signholder 2|keysend|revoke 3 1"),
+            // a refused early revocation (the current commitment, before its successor is signed) must leave the store
+            // intact: the off-tree secret of a later commitment signed with an off-tree point is still refused
+            {
+                let seeded = |n: u64| hex::encode(lightning_signer::lightning::ln::chan_utils::build_commitment_secret(&[3u8; 32], INITIAL - n));
+                f(&format!(
+                    "setup|signcp 0 1000 0 1 2|signcp 1 1004 0 1 2|revokecp 0 {s0} 1000|revokecp 1 {s1} 1004|restart|signcp 2 1009 0 1 2|revokecp 1 {s1} 1004|signcp 3 1012 0 1 2|restart|revokecp 2 {a2} 1009|signcp 4 1016 0 1 2|hrevokecp 2 {a2} 1009|revokecp 2 {s2} 1008",
+                    s0 = seeded(0), s1 = seeded(1), s2 = seeded(2), a2 = hex::encode(alt_secret(2))
+                ))
+            },
             // F1 witness (fixed by 208b946): validate n+1, sign n, revoke n
             f("setup|validate 0 0 1 1 2|activate|validate 1 1 1 1 2|signholder 0|revoke 1|getsecret 0|restart|revoke 1|hrevoke 6 0"),
             // invalid signatures never open the way to a secret
@@ -366,8 +391,21 @@ impl Group for EnfGroup {
         for _ in 0..len {
             // steer: with some probability do the "right next thing" so that long histories advance
             let e = w.estate().unwrap();
+            // scenario steering: a staged commitment with an outgoing HTLC → let its approval expire; a refused
+            // revocation → retry it, restart, force-close with the current commitment
+            let staged_out = e.next_holder_commit_info.as_ref().map(|x| !x.0.offered_htlcs.is_empty()).unwrap_or(false);
+            let last = ops.last().cloned().unwrap_or_default();
+            let last_refused_revoke = (last.starts_with("revoke ") || last.starts_with("hrevoke ")) && last.ends_with(" 0");
             let op = if w.dead {
                 "restart".to_string()
+            } else if staged_out && w.outgoing_ok(&e.next_holder_commit_info.as_ref().unwrap().0.offered_htlcs) && rng.chance(1, 3) {
+                "tick 61".to_string()
+            } else if last_refused_revoke && rng.chance(2, 3) {
+                last.clone()
+            } else if ops.len() >= 2 && last == ops[ops.len() - 2] && last_refused_revoke && rng.chance(2, 3) {
+                "restart".to_string()
+            } else if last == "restart" && staged_out && e.next_holder_commit_num >= 1 && rng.chance(1, 2) {
+                if rng.chance(1, 2) { format!("signholder {}", e.next_holder_commit_num - 1) } else { format!("hsigncommit 6 {}", e.next_holder_commit_num - 1) }
             } else if rng.chance(1, 4) {
                 if self.prop == "C03" {
                     let (cc, cr) = (e.next_counterparty_commit_num, e.next_counterparty_revoke_num);
@@ -379,7 +417,7 @@ impl Group for EnfGroup {
                         format!("signcp {} {} {} 1 {}", cc, cp_point_id(cc, 0), rng.below(4), rng.range(1, 2))
                     }
                 } else if e.next_holder_commit_info.is_some() {
-                    if e.next_holder_commit_num == 0 { "activate".to_string() } else { format!("revoke {}", e.next_holder_commit_num) }
+                    if e.next_holder_commit_num == 0 { "activate".to_string() } else { format!("revoke {} {}", e.next_holder_commit_num, if w.outgoing_ok(&e.next_holder_commit_info.as_ref().unwrap().0.offered_htlcs) { 1 } else { 0 }) }
                 } else {
                     let nn = e.next_holder_commit_num;
                     let c = if nn > 0 && rng.chance(1, 2) { 4 + rng.below(5) } else { rng.below(4) };
